@@ -1,13 +1,628 @@
-// Package c07 is the correspondence harness for property C07 (placeholder).
+// Package c07 is the correspondence harness for property C07: failing plugins cannot stall,
+// crash or corrupt a request; handler errors veto it.
+//
+// Every case runs a real Adaptation with three real plugins (indices 10/20/30; test bed in
+// verifh/c06/rt); the connection of ONE of them goes through rt.FaultConn. After a clean
+// warm-up request the fault is armed, the request under test is issued and timed, then a
+// further request shows who is still being invoked. Cases run in worker subprocesses: a panic
+// or a hang of the runtime is the case's observation.
+//
+// Streams:
+//
+//	calib   – clean exchanges, measuring the bytes each request type moves per direction
+//	cut     – socket closed after k bytes, k over the WHOLE exchange in both directions
+//	corrupt – byte k inverted, both directions
+//	stall   – bytes after k silently swallowed, socket left open
+//	event   – orderly stop / abrupt close before, during, after the call; handler hanging
+//	          past the timeout; handler slow but in time; handler returning an error
+//
+// each × faulty plugin first/middle/last × create/update/stop/state change/update pod.
 package c07
 
 import (
+	"context"
+	"encoding/json"
 	"errors"
+	"fmt"
+	"os"
+	"path/filepath"
+	"sync"
+	"time"
 
+	"github.com/containerd/nri/pkg/adaptation"
+
+	"verifh/c06/rt"
 	"verifh/internal/hx"
 	"verifh/internal/lineio"
 )
 
+type Fault struct {
+	Kind string `json:"kind"` // none|cut|corrupt|stall|stop-before|kill-before|kill-during|kill-after|hang|slow|herr
+	Dir  string `json:"dir"`  // r2p | p2r | ""
+	Off  int64  `json:"off"`
+}
+
+type In struct {
+	Kind  string `json:"kind"` // "fault" | "calib" | "multi"
+	Ev    int    `json:"ev"`
+	Pos   int    `json:"pos"` // position of the faulty plugin: 0,1,2
+	N     int    `json:"n"`   // number of plugins
+	Fault Fault  `json:"fault"`
+	Raw   bool   `json:"raw"` // faulty plugin speaks the protocol without the stub
+	// Faults (kind "multi"): one fault per plugin, all armed for the same request.
+	Faults    []Fault `json:"faults"`
+	TimeoutMs int     `json:"timeout_ms"`
+	SlackMs   int     `json:"slack_ms"`
+}
+
+type Inv struct {
+	P string `json:"p"`
+	R string `json:"r"`
+	E int    `json:"e"`
+}
+
+type ReqObs struct {
+	Res    rt.Result `json:"res"`
+	Log    []Inv     `json:"log"`
+	WallMs int64     `json:"wall_ms"`
+}
+
+type Obs struct {
+	Warm    ReqObs `json:"warm"`
+	Fault   ReqObs `json:"fault"`
+	Next    ReqObs `json:"next"`
+	R2P     int64  `json:"r2p"` // bytes of the clean warm-up exchange at the faulty plugin
+	P2R     int64  `json:"p2r"`
+	Fired   bool   `json:"fired"`
+	Closed  []bool `json:"closed"` // plugin side noticed the loss of its connection (at the end)
+	Retries int    `json:"retries"`
+	Fail    string `json:"fail"`
+	Panic   string `json:"panic"`
+}
+
+var names = []string{"a", "b", "c", "d", "e"}
+
+func invs(st []rt.Stamp) []Inv {
+	out := make([]Inv, 0, len(st))
+	for _, s := range st {
+		out = append(out, Inv{s.Plugin, s.Req, s.Ev})
+	}
+	return out
+}
+
+var timeoutMu sync.Mutex
+
+func runOnce(dir string, in *In) (obs Obs) {
+	obs.Closed = []bool{}
+	r, err := rt.NewRuntime(dir, nil)
+	if err != nil {
+		obs.Fail = "runtime: " + err.Error()
+		return
+	}
+	defer r.Close()
+	T := time.Duration(in.TimeoutMs) * time.Millisecond
+	release := make(chan struct{})
+	defer close(release)
+	var fc *rt.FaultConn
+	hook := func(p *rt.Plugin, ev int, req string) error {
+		if req != "fault" {
+			return nil
+		}
+		switch in.Fault.Kind {
+		case "herr":
+			return errors.New("veto:" + p.Name + ":" + req + ":" + fmt.Sprint(ev))
+		case "hang":
+			select {
+			case <-release:
+			case <-time.After(8 * time.Second):
+			}
+		case "slow":
+			time.Sleep(T / 3)
+		case "kill-during":
+			fc.Kill()
+		}
+		return nil
+	}
+	n := in.N
+	if n == 0 {
+		n = 3
+	}
+	var plugins []*rt.Plugin
+	for i := 0; i < n; i++ {
+		spec := rt.Spec{Idx: fmt.Sprintf("%02d", 10*(i+1)), Name: names[i], Mask: 0}
+		opts := rt.ConnectOpts{}
+		var get func() *rt.FaultConn
+		if i == in.Pos {
+			spec.Raw = in.Raw
+			opts.Hook = hook
+			opts.Dial, get = rt.FaultDialer()
+		}
+		p, err := r.Connect(spec, opts)
+		if err != nil {
+			obs.Fail = "reg: " + err.Error()
+			return
+		}
+		if get != nil {
+			fc = get()
+		}
+		plugins = append(plugins, p)
+	}
+	r.Rec.Take()
+	do := func(id string) ReqObs {
+		t0 := time.Now()
+		// the caller's own, much longer deadline only keeps a runtime without per-plugin
+		// deadlines from hanging the campaign; such a request is over the wall-clock bound anyway
+		ctx, cancel := context.WithTimeout(context.Background(), 10*time.Second)
+		res := r.DoCtx(ctx, in.Ev, id)
+		cancel()
+		return ReqObs{Res: res, WallMs: time.Since(t0).Milliseconds(), Log: invs(r.Rec.Take())}
+	}
+	// all three requests run under the short request timeout (the deadline travels in the
+	// request, so its size depends on it)
+	timeoutMu.Lock()
+	adaptation.SetPluginRequestTimeout(T)
+	defer func() {
+		adaptation.SetPluginRequestTimeout(adaptation.DefaultPluginRequestTimeout)
+		timeoutMu.Unlock()
+	}()
+	// clean exchange, measured
+	fc.Reset()
+	obs.Warm = do("warm.")
+	obs.R2P, obs.P2R = fc.Counts()
+	if in.Kind == "calib" {
+		obs.Fault = ReqObs{Log: []Inv{}, Res: rt.Result{Items: []string{}}}
+		obs.Next = obs.Fault
+		return
+	}
+	// the request under test, under the short request timeout
+	faulty := plugins[in.Pos]
+	switch in.Fault.Kind {
+	case "cut", "corrupt", "stall":
+		fc.Arm(in.Fault.Kind, in.Fault.Dir, in.Fault.Off)
+	case "stop-before":
+		faulty.Stop()
+	case "kill-before":
+		fc.Kill()
+	default:
+		fc.Reset()
+	}
+	obs.Fault = do("fault")
+	obs.Fired = fc.Fired()
+	switch in.Fault.Kind {
+	case "cut", "corrupt", "stall":
+		fc.Reset()
+	case "kill-after":
+		fc.Kill()
+	}
+	obs.Next = do("next.")
+	for _, p := range plugins {
+		obs.Closed = append(obs.Closed, p.Closed())
+	}
+	return
+}
+
+// runMulti: every plugin has its own fault (possibly "none"), all armed for the one request.
+func runMulti(dir string, in *In) (obs Obs) {
+	obs.Closed = []bool{}
+	r, err := rt.NewRuntime(dir, nil)
+	if err != nil {
+		obs.Fail = "runtime: " + err.Error()
+		return
+	}
+	defer r.Close()
+	T := time.Duration(in.TimeoutMs) * time.Millisecond
+	release := make(chan struct{})
+	defer close(release)
+	n := len(in.Faults)
+	fcs := make([]*rt.FaultConn, n)
+	var plugins []*rt.Plugin
+	for i := 0; i < n; i++ {
+		i := i
+		f := in.Faults[i]
+		hook := func(p *rt.Plugin, ev int, req string) error {
+			if req != "fault" {
+				return nil
+			}
+			switch f.Kind {
+			case "herr":
+				return errors.New("veto:" + p.Name + ":" + req + ":" + fmt.Sprint(ev))
+			case "hang":
+				select {
+				case <-release:
+				case <-time.After(8 * time.Second):
+				}
+			case "slow":
+				time.Sleep(T / 3)
+			case "kill-during":
+				fcs[i].Kill()
+			}
+			return nil
+		}
+		dial, get := rt.FaultDialer()
+		p, err := r.Connect(rt.Spec{Idx: fmt.Sprintf("%02d", 10*(i+1)), Name: names[i], Mask: 0},
+			rt.ConnectOpts{Hook: hook, Dial: dial})
+		if err != nil {
+			obs.Fail = "reg: " + err.Error()
+			return
+		}
+		fcs[i] = get()
+		plugins = append(plugins, p)
+	}
+	r.Rec.Take()
+	do := func(id string) ReqObs {
+		t0 := time.Now()
+		ctx, cancel := context.WithTimeout(context.Background(), 10*time.Second)
+		res := r.DoCtx(ctx, in.Ev, id)
+		cancel()
+		return ReqObs{Res: res, WallMs: time.Since(t0).Milliseconds(), Log: invs(r.Rec.Take())}
+	}
+	timeoutMu.Lock()
+	adaptation.SetPluginRequestTimeout(T)
+	defer func() {
+		adaptation.SetPluginRequestTimeout(adaptation.DefaultPluginRequestTimeout)
+		timeoutMu.Unlock()
+	}()
+	obs.Warm = do("warm.")
+	for i, f := range in.Faults {
+		switch f.Kind {
+		case "cut", "stall":
+			fcs[i].Arm(f.Kind, f.Dir, f.Off)
+		case "stop-before":
+			plugins[i].Stop()
+		case "kill-before":
+			fcs[i].Kill()
+		default:
+			fcs[i].Reset()
+		}
+	}
+	obs.Fault = do("fault")
+	for _, fc := range fcs {
+		fc.Reset()
+	}
+	obs.Next = do("next.")
+	for _, p := range plugins {
+		obs.Closed = append(obs.Closed, p.Closed())
+	}
+	return
+}
+
+// healthyMissing: a plugin other than the faulty one was not invoked in the request under test
+// or in the following one although nothing was done to it.
+func healthyMissing(in *In, o *Obs) bool {
+	if o.Fail != "" || in.Kind != "fault" {
+		return false
+	}
+	n := in.N
+	if n == 0 {
+		n = 3
+	}
+	seen := func(l []Inv, name, req string) bool {
+		for _, i := range l {
+			if i.P == name && i.R == req {
+				return true
+			}
+		}
+		return false
+	}
+	failed := o.Fault.Res.Err != ""
+	for i := 0; i < n; i++ {
+		if i == in.Pos {
+			continue
+		}
+		if !seen(o.Next.Log, names[i], "next.") {
+			return true
+		}
+		// in the request under test everybody before the faulty plugin is invoked, and everybody
+		// behind it unless the request was (legitimately or not) failed there
+		if (i < in.Pos || !failed) && !seen(o.Fault.Log, names[i], "fault") {
+			return true
+		}
+		// invoked but its answer did not make it in time
+		if o.Next.Res.Err == "" && !contributes(in.Ev, names[i], "next.", o.Next.Res.Items) {
+			return true
+		}
+		if !failed && !contributes(in.Ev, names[i], "fault", o.Fault.Res.Items) {
+			return true
+		}
+	}
+	return false
+}
+
+// contributes: the reply carries what plugin `name` answers to request `req` (true for
+// request kinds without a reply body).
+func contributes(ev int, name, req string, items []string) bool {
+	var want string
+	switch ev {
+	case rt.EvCreate:
+		want = name + "=" + req
+	case rt.EvUpdate, rt.EvStop:
+		want = fmt.Sprintf("%s/%s=%d", req, name, rt.MemFor(name, req))
+	default:
+		return true
+	}
+	for _, it := range items {
+		if it == want {
+			return true
+		}
+	}
+	return false
+}
+
+// noisyMulti: a plugin whose fault is none/slow was not invoked by the following request.
+func noisyMulti(in *In, o *Obs) bool {
+	if o.Fail != "" {
+		return false
+	}
+	for i, f := range in.Faults {
+		if f.Kind != "none" && f.Kind != "slow" {
+			continue
+		}
+		ok := false
+		for _, l := range o.Next.Log {
+			ok = ok || (l.P == names[i] && l.R == "next.")
+		}
+		if !ok || (o.Next.Res.Err == "" && !contributes(in.Ev, names[i], "next.", o.Next.Res.Items)) {
+			return true
+		}
+	}
+	return false
+}
+
+func runCase(dir string, in *In) Obs {
+	var o Obs
+	for try := 0; try < 3; try++ {
+		d, err := os.MkdirTemp(dir, "c")
+		if err != nil {
+			return Obs{Fail: err.Error(), Closed: []bool{}}
+		}
+		if in.Kind == "multi" {
+			o = runMulti(d, in)
+			os.RemoveAll(d)
+			o.Retries = try
+			if !noisyMulti(in, &o) {
+				break
+			}
+			continue
+		}
+		o = runOnce(d, in)
+		os.RemoveAll(d)
+		o.Retries = try
+		// a HEALTHY plugin lost under the 150 ms timeout can be scheduling noise on a loaded
+		// machine: repeat; a real defect repeats too and is then reported
+		if !healthyMissing(in, &o) {
+			break
+		}
+	}
+	return o
+}
+
+// ---------------------------------------------------------------------------------------
+
+var reqTypes = []int{rt.EvCreate, rt.EvUpdate, rt.EvStop, rt.EvStart, rt.EvUpdatePod}
+
+const (
+	timeoutMs = 200
+	slackMs   = 2500
+)
+
+func mk(ev, pos int, f Fault, raw bool) *In {
+	return &In{Kind: "fault", Ev: ev, Pos: pos, N: 3, Fault: f, Raw: raw, TimeoutMs: timeoutMs, SlackMs: slackMs}
+}
+
+func emit(w *lineio.Writer, jobs []*rt.Job) {
+	for _, j := range jobs {
+		var obs interface{} = j.Obs
+		switch {
+		case j.Crashed:
+			obs = Obs{Fail: "crashed", Panic: j.Panic, Closed: []bool{}}
+		case j.Blocked:
+			obs = Obs{Fail: "blocked", Closed: []bool{}}
+		case j.Obs == nil:
+			obs = Obs{Fail: "not run", Closed: []bool{}}
+		}
+		w.Put(&lineio.Case{ID: j.ID, In: j.In, Obs: obs})
+	}
+}
+
 func Run(o *hx.Opts, w *lineio.Writer) error {
-	return errors.New("C07 harness not implemented")
+	rt.Quiet()
+	if len(filepath.Join(o.Scratch, "w123456", "scratch", "c0123456789", "n123456.sock")) > 100 {
+		d, err := os.MkdirTemp("", "c07-")
+		if err != nil {
+			return err
+		}
+		defer os.RemoveAll(d)
+		o.Scratch = d
+	}
+	if rt.IsWorker(func(_ string, _ string, raw json.RawMessage) interface{} {
+		in := &In{}
+		if err := json.Unmarshal(raw, in); err != nil {
+			return Obs{Fail: err.Error(), Closed: []bool{}}
+		}
+		return runCase(o.Scratch, in)
+	}) {
+		return nil
+	}
+	const par = 5
+	if o.Replay != "" {
+		cases, err := hx.ReplayCases(o.Replay)
+		if err != nil {
+			return err
+		}
+		var jobs []*rt.Job
+		for _, c := range cases {
+			in := &In{}
+			if err := json.Unmarshal(c.In, in); err != nil {
+				return err
+			}
+			jobs = append(jobs, &rt.Job{ID: c.ID, In: in})
+		}
+		err = rt.Dispatch(o.Scratch, "C07", "", jobs, 8, par, 20*time.Second)
+		emit(w, jobs)
+		return err
+	}
+	// calibration: how many bytes does each request type move at one plugin, per direction
+	var calib []*rt.Job
+	for _, ev := range reqTypes {
+		for pos := 0; pos < 3; pos++ {
+			for _, raw := range []bool{false, true} {
+				if raw && pos != 1 {
+					continue
+				}
+				calib = append(calib, &rt.Job{ID: fmt.Sprintf("calib-%d-%d-%v", ev, pos, raw),
+					In: &In{Kind: "calib", Ev: ev, Pos: pos, N: 3, Raw: raw, TimeoutMs: timeoutMs, SlackMs: slackMs}})
+			}
+		}
+	}
+	if err := rt.Dispatch(o.Scratch, "C07", "", calib, 1, par, 20*time.Second); err != nil {
+		emit(w, calib)
+		return err
+	}
+	emit(w, calib)
+	type lens struct{ r2p, p2r int64 }
+	ln := map[string]lens{}
+	for _, j := range calib {
+		var ob Obs
+		if j.Obs == nil || json.Unmarshal(j.Obs, &ob) != nil || ob.Fail != "" || ob.R2P == 0 || ob.P2R == 0 {
+			return fmt.Errorf("calibration %s failed: %s", j.ID, ob.Fail)
+		}
+		in := j.In.(*In)
+		ln[fmt.Sprintf("%d-%d-%v", in.Ev, in.Pos, in.Raw)] = lens{ob.R2P, ob.P2R}
+	}
+	rnd := o.Rand(701)
+	var jobs []*rt.Job
+	add := func(in *In) {
+		jobs = append(jobs, &rt.Job{ID: fmt.Sprintf("%s-%s%d-e%d-p%d-%v-%d", in.Fault.Kind, in.Fault.Dir, in.Fault.Off, in.Ev, in.Pos, in.Raw, len(jobs)), In: in})
+	}
+	thorough := o.Thorough()
+	for _, ev := range reqTypes {
+		for pos := 0; pos < 3; pos++ {
+			raw := false
+			l := ln[fmt.Sprintf("%d-%d-%v", ev, pos, raw)]
+			// events
+			for _, k := range []string{"none", "stop-before", "kill-before", "kill-during", "kill-after", "hang", "slow", "herr"} {
+				add(mk(ev, pos, Fault{Kind: k}, raw))
+			}
+			// byte-exact faults: every offset of the exchange for the middle plugin at quick tier
+			// (other positions: a seeded stride), every offset everywhere at thorough tier
+			for _, dir := range []string{"r2p", "p2r"} {
+				total := l.r2p
+				if dir == "p2r" {
+					total = l.p2r
+				}
+				stride := int64(1)
+				if !thorough && pos != 1 {
+					stride = 5
+				}
+				phase := int64(rnd.Intn(int(stride)))
+				for off := int64(0); off < total; off++ {
+					if off%stride != phase && off > 10 && off != total-1 {
+						continue
+					}
+					add(mk(ev, pos, Fault{Kind: "cut", Dir: dir, Off: off}, raw))
+				}
+				cstride := int64(7)
+				if thorough {
+					cstride = 1
+				}
+				cphase := int64(rnd.Intn(int(cstride)))
+				for off := int64(0); off < total; off++ {
+					if off%cstride != cphase && off > 18 {
+						continue
+					}
+					if pos != 1 && !thorough && off > 18 {
+						continue
+					}
+					add(mk(ev, pos, Fault{Kind: "corrupt", Dir: dir, Off: off}, raw))
+				}
+				for _, off := range []int64{0, 3, 8, 13, total / 2, total - 1} {
+					if pos == 1 || thorough {
+						add(mk(ev, pos, Fault{Kind: "stall", Dir: dir, Off: off}, raw))
+					}
+				}
+			}
+		}
+		// the same through the raw plugin service (no stub on the plugin side), middle position
+		lr := ln[fmt.Sprintf("%d-1-%v", ev, true)]
+		for _, k := range []string{"kill-before", "kill-during", "hang", "herr"} {
+			add(mk(ev, 1, Fault{Kind: k}, true))
+		}
+		for _, dir := range []string{"r2p", "p2r"} {
+			total := lr.r2p
+			if dir == "p2r" {
+				total = lr.p2r
+			}
+			stride := int64(6)
+			if thorough {
+				stride = 2
+			}
+			for off := int64(rnd.Intn(int(stride))); off < total; off += stride {
+				add(mk(ev, 1, Fault{Kind: "cut", Dir: dir, Off: off}, true))
+			}
+		}
+	}
+	// several faults in one request: 3..5 plugins, each with its own fault
+	mkinds := []string{"none", "none", "slow", "herr", "hang", "kill-before", "stop-before", "kill-during", "cut", "cut", "stall"}
+	for i := 0; i < o.N(150, 1500); i++ {
+		n := 3 + rnd.Intn(3)
+		in := &In{Kind: "multi", Ev: reqTypes[rnd.Intn(len(reqTypes))], N: n, TimeoutMs: timeoutMs, SlackMs: slackMs}
+		herrs := 0
+		for k := 0; k < n; k++ {
+			f := Fault{Kind: mkinds[rnd.Intn(len(mkinds))]}
+			if f.Kind == "herr" {
+				herrs++
+				if herrs > 1 || rnd.Intn(2) == 0 {
+					f.Kind = "hang"
+				}
+			}
+			if f.Kind == "cut" || f.Kind == "stall" {
+				f.Dir = []string{"r2p", "p2r"}[rnd.Intn(2)]
+				f.Off = int64(rnd.Intn(18)) // inside both headers: shorter than every exchange
+			}
+			in.Faults = append(in.Faults, f)
+		}
+		jobs = append(jobs, &rt.Job{ID: fmt.Sprintf("multi-%d", i), In: in})
+	}
+	// the runtime's reaction to a reply cut in the middle of a frame depends on which of two
+	// goroutines notices first: repeat those points
+	reps := o.N(40, 150)
+	var race []*rt.Job
+	addRace := func(in *In) {
+		race = append(race, &rt.Job{ID: fmt.Sprintf("race-%s%d-e%d-p%d-%d", in.Fault.Dir, in.Fault.Off, in.Ev, in.Pos, len(race)), In: in})
+	}
+	for _, ev := range reqTypes {
+		for pos := 0; pos < 3; pos++ {
+			l := ln[fmt.Sprintf("%d-%d-%v", ev, pos, false)]
+			for rep := 0; rep < reps; rep++ {
+				for _, off := range []int64{1 + int64(rnd.Intn(7)), 9 + int64(rnd.Intn(9)), 18 + int64(rnd.Intn(int(l.p2r-18)+1))%l.p2r} {
+					if off >= l.p2r {
+						off = l.p2r - 1
+					}
+					addRace(mk(ev, pos, Fault{Kind: "cut", Dir: "p2r", Off: off}, false))
+				}
+			}
+		}
+	}
+	if o.Budget > 1 {
+		// failing-input search: random extra points
+		for i := 0; i < 200*o.Budget; i++ {
+			ev := reqTypes[rnd.Intn(len(reqTypes))]
+			pos := rnd.Intn(3)
+			l := ln[fmt.Sprintf("%d-%d-%v", ev, pos, false)]
+			dir, total := "r2p", l.r2p
+			if rnd.Intn(2) == 0 {
+				dir, total = "p2r", l.p2r
+			}
+			add(mk(ev, pos, Fault{Kind: []string{"cut", "corrupt"}[rnd.Intn(2)], Dir: dir, Off: int64(rnd.Intn(int(total)))}, false))
+		}
+	}
+	err := rt.Dispatch(o.Scratch, "C07", "", jobs, 25, par, 20*time.Second)
+	emit(w, jobs)
+	// two OS threads: the window in which both wake-up reasons are pending is widest
+	err2 := rt.Dispatch(o.Scratch, "C07", "", race, 100, par, 20*time.Second, "GOMAXPROCS=2")
+	emit(w, race)
+	if err == nil {
+		err = err2
+	}
+	return err
 }
